@@ -196,6 +196,10 @@ def judge(prop, mod, tier, seed, outs, wall, replay=False):
         lines.append('VIOLATION property=%s replay=%s' % (prop, path))
         lines.append('  sig=%s count=%d witness=%s' % (
             v['sig'], viol_counts[v['sig']], _short(v.get('witness'), 600)))
+    if os.environ.get('FVMON_DUMP'):
+        with open(os.environ['FVMON_DUMP'], 'w') as f:
+            for v in unknown:
+                f.write(json.dumps(v, default=repr) + '\n')
     if len(unknown) > MAX_LINES:
         lines.append('  ... %d more distinct violation signatures' % (
             len(unknown) - MAX_LINES))
